@@ -10,6 +10,9 @@ use radix_common::prelude::*;
 use radix_engine_interface::prelude::*;
 use radix_transactions::data::ManifestCustomCharEscaper;
 use radix_transactions::manifest::lexer::tokenize;
+use radix_transactions::manifest::parser::{Parser, ParserErrorKind, PARSER_MAX_DEPTH};
+use radix_transactions::manifest::ast;
+use radix_transactions::data::{format_manifest_value, ManifestDecompilationDisplayContext};
 use radix_transactions::manifest::token::Token;
 use radix_transactions::manifest::*;
 use radix_transactions::prelude::*;
@@ -83,6 +86,97 @@ fn gen_args(rng: &mut Rng, ids: &mut Ids, allow_proof: bool) -> ManifestValue {
     ManifestValue::Tuple { fields: (0..rng.below(4)).map(|_| gen_value(rng, ids, 3, allow_proof)).collect() }
 }
 
+
+// ---- value layer (token level) -------------------------------------------------------------------------------
+fn cps(s: &str) -> String { coq_list(s.chars().map(|c| format!("{}", c as u32))) }
+fn tok_coq(t: &Token) -> String {
+    match t {
+        Token::BoolLiteral(b) => format!("TBool {}", coq_bool(*b)),
+        Token::I8Literal(v) => format!("TInt true 8 {}", coq_z(v)), Token::I16Literal(v) => format!("TInt true 16 {}", coq_z(v)),
+        Token::I32Literal(v) => format!("TInt true 32 {}", coq_z(v)), Token::I64Literal(v) => format!("TInt true 64 {}", coq_z(v)),
+        Token::I128Literal(v) => format!("TInt true 128 {}", coq_z(v)),
+        Token::U8Literal(v) => format!("TInt false 8 {}", coq_z(v)), Token::U16Literal(v) => format!("TInt false 16 {}", coq_z(v)),
+        Token::U32Literal(v) => format!("TInt false 32 {}", coq_z(v)), Token::U64Literal(v) => format!("TInt false 64 {}", coq_z(v)),
+        Token::U128Literal(v) => format!("TInt false 128 {}", coq_z(v)),
+        Token::StringLiteral(x) => format!("TString {}", cps(x)), Token::Ident(x) => format!("TIdent {}", cps(x)),
+        Token::OpenParenthesis => "TOpenP".into(), Token::CloseParenthesis => "TCloseP".into(), Token::LessThan => "TLt".into(),
+        Token::GreaterThan => "TGt".into(), Token::Comma => "TComma".into(), Token::Semicolon => "TSemi".into(), Token::FatArrow => "TFatArrow".into(),
+    }
+}
+fn fmt_value(v: &ManifestValue, enc: &AddressBech32Encoder, multi: bool) -> String {
+    let mut out = String::new();
+    let ctx = ManifestDecompilationDisplayContext::with_optional_bech32(Some(enc));
+    let ctx = if multi { ctx.with_multi_line(4, 4) } else { ctx };
+    format_manifest_value(&mut out, v, &ctx, false, 0).unwrap();
+    out
+}
+/// the Ident("string") form the formatter prints for a custom value / NonFungibleGlobalId / Bytes
+fn leaf_of(v: &ManifestValue, enc: &AddressBech32Encoder) -> Option<(String, String)> {
+    let toks = tokenize(&fmt_value(v, enc, false)).ok()?;
+    match toks.as_slice() {
+        [a, b, c, d] => match (&a.token, &b.token, &c.token, &d.token) {
+            (Token::Ident(id), Token::OpenParenthesis, Token::StringLiteral(s), Token::CloseParenthesis) if id != "Tuple" && id != "Array" && id != "Map" => Some((id.clone(), s.clone())),
+            _ => None },
+        _ => None,
+    }
+}
+fn kind_name(k: &ManifestValueKind) -> String { radix_transactions::data::format_value_kind(k).to_string() }
+fn mv_coq(v: &ManifestValue, enc: &AddressBech32Encoder) -> String {
+    let list = |xs: &Vec<ManifestValue>| coq_list(xs.iter().map(|x| mv_coq(x, enc)));
+    match v {
+        ManifestValue::Bool { value } => format!("(MBool {})", coq_bool(*value)),
+        ManifestValue::I8 { value } => format!("(MInt true 8 {})", coq_z(value)), ManifestValue::I16 { value } => format!("(MInt true 16 {})", coq_z(value)),
+        ManifestValue::I32 { value } => format!("(MInt true 32 {})", coq_z(value)), ManifestValue::I64 { value } => format!("(MInt true 64 {})", coq_z(value)),
+        ManifestValue::I128 { value } => format!("(MInt true 128 {})", coq_z(value)),
+        ManifestValue::U8 { value } => format!("(MInt false 8 {})", coq_z(value)), ManifestValue::U16 { value } => format!("(MInt false 16 {})", coq_z(value)),
+        ManifestValue::U32 { value } => format!("(MInt false 32 {})", coq_z(value)), ManifestValue::U64 { value } => format!("(MInt false 64 {})", coq_z(value)),
+        ManifestValue::U128 { value } => format!("(MInt false 128 {})", coq_z(value)),
+        ManifestValue::String { value } => format!("(MStr {})", cps(value)),
+        ManifestValue::Custom { .. } => { let (id, s) = leaf_of(v, enc).expect("custom leaf"); format!("(MLeaf {} {})", cps(&id), cps(&s)) }
+        ManifestValue::Tuple { fields } => match leaf_of(v, enc) { Some((id, s)) => format!("(MLeaf {} {})", cps(&id), cps(&s)), None => format!("(MTuple {})", list(fields)) },
+        ManifestValue::Enum { discriminator, fields } => format!("(MEnum {} {})", discriminator, list(fields)),
+        ManifestValue::Array { element_value_kind: ManifestValueKind::U8, .. } => { let (_, s) = leaf_of(v, enc).expect("bytes"); format!("(MBytes {})", cps(&s)) }
+        ManifestValue::Array { element_value_kind, elements } => format!("(MArray {} {})", cps(&kind_name(element_value_kind)), list(elements)),
+        ManifestValue::Map { key_value_kind, value_value_kind, entries } => format!("(MMap {} {} {})", cps(&kind_name(key_value_kind)), cps(&kind_name(value_value_kind)),
+            coq_list(entries.iter().map(|(k, x)| format!("({}, {})", mv_coq(k, enc), mv_coq(x, enc))))),
+    }
+}
+fn ast_coq(v: &ast::Value) -> String {
+    use ast::Value as V;
+    let list = |xs: &Vec<ast::ValueWithSpan>| coq_list(xs.iter().map(|x| ast_coq(&x.value)));
+    let one = |name: &str, x: &ast::ValueWithSpan| format!("(AOne {} {})", cps(name), ast_coq(&x.value));
+    match v {
+        V::Bool(b) => format!("(ABool {})", coq_bool(*b)),
+        V::I8(x) => format!("(AInt true 8 {})", coq_z(x)), V::I16(x) => format!("(AInt true 16 {})", coq_z(x)), V::I32(x) => format!("(AInt true 32 {})", coq_z(x)),
+        V::I64(x) => format!("(AInt true 64 {})", coq_z(x)), V::I128(x) => format!("(AInt true 128 {})", coq_z(x)),
+        V::U8(x) => format!("(AInt false 8 {})", coq_z(x)), V::U16(x) => format!("(AInt false 16 {})", coq_z(x)), V::U32(x) => format!("(AInt false 32 {})", coq_z(x)),
+        V::U64(x) => format!("(AInt false 64 {})", coq_z(x)), V::U128(x) => format!("(AInt false 128 {})", coq_z(x)),
+        V::String(s) => format!("(AStr {})", cps(s)),
+        V::Enum(d, fs) => format!("(AEnum {} {})", d, list(fs)),
+        V::Array(k, es) => format!("(AArray {} {})", cps(&format!("{:?}", k.value_kind)), list(es)),
+        V::Tuple(fs) => format!("(ATuple {})", list(fs)),
+        V::Map(k, x, es) => format!("(AMap {} {} {})", cps(&format!("{:?}", k.value_kind)), cps(&format!("{:?}", x.value_kind)), coq_list(es.iter().map(|(a, b)| format!("({}, {})", ast_coq(&a.value), ast_coq(&b.value))))),
+        V::None => "ANone".into(),
+        V::Some(x) => one("Some", x), V::Ok(x) => one("Ok", x), V::Err(x) => one("Err", x), V::Bytes(x) => one("Bytes", x),
+        V::NonFungibleGlobalId(x) => one("NonFungibleGlobalId", x), V::Address(x) => one("Address", x), V::NamedAddress(x) => one("NamedAddress", x),
+        V::Bucket(x) => one("Bucket", x), V::Proof(x) => one("Proof", x), V::Expression(x) => one("Expression", x), V::Blob(x) => one("Blob", x),
+        V::Decimal(x) => one("Decimal", x), V::PreciseDecimal(x) => one("PreciseDecimal", x), V::NonFungibleLocalId(x) => one("NonFungibleLocalId", x),
+        V::AddressReservation(x) => one("AddressReservation", x), V::Intent(x) => one("Intent", x), V::NamedIntent(x) => one("NamedIntent", x),
+    }
+}
+/// the real parser on a token list: (result, number of tokens left)
+fn run_parser(toks: &[radix_transactions::manifest::token::TokenWithSpan]) -> String {
+    let t = toks.to_vec();
+    match catch(move || { let mut p = Parser::new(t.clone(), PARSER_MAX_DEPTH).map_err(|e| e.error_kind)?; let v = p.parse_value().map_err(|e| e.error_kind)?; let mut left = 0usize; while !p.is_eof() { p.advance().ok(); left += 1; } Ok::<_, ParserErrorKind>((v, left)) }) {
+        Err(_) => "PPanic".into(),
+        Ok(Ok((v, left))) => format!("(PRes (Some {}) {} None)", ast_coq(&v.value), left),
+        Ok(Err(k)) => format!("(PRes None 0 (Some {}))", match k {
+            ParserErrorKind::UnexpectedEof => "PEof", ParserErrorKind::UnexpectedToken { .. } | ParserErrorKind::InvalidArgument { .. } => "PUnexpected",
+            ParserErrorKind::InvalidNumberOfValues { .. } => "PNumValues", ParserErrorKind::InvalidNumberOfTypes { .. } => "PNumTypes",
+            ParserErrorKind::UnknownEnumDiscriminator { .. } => "PUnmodelled", ParserErrorKind::MaxDepthExceeded { .. } => "PMaxDepth" }),
+    }
+}
+
 fn gen_instructions(rng: &mut Rng, v2: bool, subintent: bool, children: u32, nblobs: u8, prealloc: u32) -> Vec<InstructionV2> {
     let mut ids = Ids { buckets: vec![], proofs: vec![], res: (0..prealloc).collect(), named: 0, nblobs };
     let (mut nb, mut np, mut nr) = (0u32, 0u32, prealloc);
@@ -145,12 +239,12 @@ fn main() {
          blobs, children, preallocated addresses -> decompile -> compile -> equality. stream 2: random strings through the real escaper and lexer vs the model. \
          non-trivial = manifest with >= 3 instructions or a string needing an escape",
     );
-    let mut cw = CaseWriter::new("RV.Corr.C30_run RV.Model.C30_Text", "check");
+    let mut cw = CaseWriter::new("RV.Corr.C30_run RV.Model.C30_Text RV.Model.C31_Lexer RV.Model.C30_Value", "check");
     let root = Rng::new(args.seed);
     let net = NetworkDefinition::simulator();
     for i in 0..args.cases {
         let mut rng = root.fork(i as u64);
-        if i % 2 == 0 {
+        if i % 3 == 0 {
             let kind = rng.below(4); // 0 V2, 1 SubintentV2, 2 V1, 3 SystemV1
             let v2 = kind < 2; let subintent = kind == 1;
             let nblobs = rng.below(3) as u8;
@@ -186,6 +280,28 @@ fn main() {
                 Ok(Ok((text, same))) => { report.count("roundtrip_ok"); if !same { report.oracle_failure(i, "", &format!("compile(decompile(m)) != m; text:\n{}", &text[..text.len().min(1500)]), input); } if i < 2 { report.sample(json!({"text": text})); } }
             }
             cw.push("CNone".to_string());
+        } else if i % 3 == 2 {
+            // ---- stream 3: value layer at token level (model: print_value / parse_value) ----
+            let enc = AddressBech32Encoder::new(&net);
+            let mut ids = Ids { buckets: vec![0, 1, 2], proofs: vec![0, 1], res: vec![0], named: 2, nblobs: 2 };
+            let mut v = gen_value(&mut rng, &mut ids, 4, true);
+            // occasionally a deep chain around it, to reach the parser's depth limit (20)
+            if rng.chance(1, 6) { let d = *rng.pick(&[10usize, 16, 17, 18, 19, 20, 21]); for k in 0..d { v = match k % 3 { 0 => ManifestValue::Tuple { fields: vec![v] }, 1 => ManifestValue::Enum { discriminator: 1, fields: vec![v] }, _ => ManifestValue::Array { element_value_kind: ManifestValueKind::Enum, elements: vec![v] } }; } }
+            // a NonFungibleGlobalId-shaped tuple now and then
+            if rng.chance(1, 8) { v = ManifestValue::Tuple { fields: vec![custom(ManifestCustomValue::Address(ManifestAddress::Static(*XRD.as_node_id()))), custom(ManifestCustomValue::NonFungibleLocalId(from_non_fungible_local_id(NonFungibleLocalId::integer(7)))), ] }; if rng.bool() { v = ManifestValue::Tuple { fields: vec![v, ManifestValue::U8 { value: 1 }] }; } }
+            let text = fmt_value(&v, &enc, rng.bool());
+            let toks = match catch({ let t = text.clone(); move || tokenize(&t) }) { Ok(Ok(t)) => t, other => { report.oracle_failure(i, "", &format!("printed value does not lex: {:?}", other.map(|r| r.map(|_| ()))), json!({"text": text})); cw.push("CNone".into()); continue; } };
+            let mut parsed = run_parser(&toks);
+            let toks_coq = coq_list(toks.iter().map(|t| tok_coq(&t.token)));
+            report.case(&text, toks.len() > 6);
+            report.count(if parsed.contains("(Some (A") || parsed.contains("(Some ANone") { "value_parsed" } else { "value_parse_error" });
+            cw.push(format!("CValue {} {} {}", mv_coq(&v, &enc), toks_coq, parsed));
+            // and a mutated token stream for the parser model alone
+            let mut m: Vec<_> = toks.clone();
+            for _ in 0..rng.range(1, 3) { if m.is_empty() { break; } let a = rng.usize_below(m.len()); match rng.below(4) { 0 => { m.remove(a); } 1 => { let x = m[a].clone(); m.insert(a, x); } 2 => { let b = rng.usize_below(m.len()); m.swap(a, b); } _ => { m.truncate(a); } } }
+            parsed = run_parser(&m);
+            report.count(if parsed.contains("(Some (A") || parsed.contains("(Some ANone") { "mutated_parsed" } else { "mutated_parse_error" });
+            cw.push(format!("CParse {} {}", coq_list(m.iter().map(|t| tok_coq(&t.token))), parsed));
         } else {
             let s = gen_string(&mut rng) + &gen_string(&mut rng);
             let printed = format!("{}", ManifestCustomCharEscaper::escaped(s.as_str()));
@@ -201,8 +317,10 @@ fn main() {
         }
     }
     let n = args.cases as u64;
-    report.floor("roundtrip_ok", n / 4);
-    report.floor("string_roundtrip_ok", n / 4);
+    report.floor("roundtrip_ok", n / 6);
+    report.floor("value_parsed", n / 8);
+    report.floor("mutated_parse_error", n / 12);
+    report.floor("string_roundtrip_ok", n / 6);
     report.floor("with_unicode_escape", n / 20);
     cw.write(&args.out, args.shards).unwrap();
     report.write(&args.out).unwrap();
